@@ -142,6 +142,31 @@ def check_map(model, step, before_node, after_node, res, case, size, T0=None):
             res.violate("c03.map-border", {**case, "pos": s + o, "assoc": 1}, sm.map(s + o, 1), s + sh + n, size=size)
 
 
+def check_side_copy(c, tr, res, case, size):
+    """The rebasing pattern: take a COPY of the transform's mapping, extend that with a foreign map, then let the
+    transform go on - its own mapping must still be exactly the maps of its own steps.  (A slice is different: like
+    upstream it shares the map list with its source and is not meant to be appended to.)"""
+    try:
+        side = tr.mapping.copy()
+        side.append_map(adapters.StepMap([0, 0, 1]))
+        tr.step(adapters.ReplaceStep(0, 0, adapters.Slice.empty))
+    except ValueError:
+        return
+    except Exception as e:  # noqa: BLE001
+        res.violate("c03.side-copy.raises", case, common.exc_str(e), size=size)
+        return
+    res.transitions += 1
+    if not (len(tr.steps) == len(tr.docs) == tr.mapping.to - tr.mapping.from_):
+        res.violate("c03.transform.alignment", case, [len(tr.steps), len(tr.docs), tr.mapping.to - tr.mapping.from_], size=size)
+        return
+    window = tr.mapping.maps[tr.mapping.from_: tr.mapping.to]
+    for k, st in enumerate(tr.steps):
+        if list(window[k].ranges) != list(st.get_map().ranges):
+            res.violate("c03.transform.map-mismatch", {**case, "step_index": k}, list(window[k].ranges),
+                        list(st.get_map().ranges), size=size)
+            return
+
+
 def check_transform(c, tr, res, case, size):
     """Clause (d): Transform.mapping is the list of the steps' maps; the composition is faithful."""
     model = c.model
@@ -239,6 +264,8 @@ def run_unit(u):
                 if tr.steps:
                     check_transform(c, tr, res, {"schema": c.id, "doc": d, "op": op}, size)
                     n += 1
+                    if status == "ok" and depth == 0:
+                        check_side_copy(c, tr, res, {"schema": c.id, "doc": d, "op": op, "then": "side-copy"}, size)
                     if status == "ok" and depth + 1 < u["depth"] and size <= u["size"] - 3:
                         nd = tr.doc.to_json()
                         if common.doc_size(model, nd) <= u["size"] and jkey(nd) not in seen:
@@ -262,6 +289,8 @@ def replay(case):
         status, tr, exc = ops.run_op(c, node, case["op"])
         if tr.steps:
             check_transform(c, tr, res, {"schema": c.id, "doc": d, "op": case["op"]}, size)
+            if case.get("then") == "side-copy" and status == "ok":
+                check_side_copy(c, tr, res, case, size)
     else:
         step = adapters.build_step(c, case["step"])
         out = c01.apply_outcome(step, node)
